@@ -378,6 +378,8 @@ class LoopCtx:
         if isinstance(old, Opt):
             inner = self.havoc_local(name, old.val, spec)
             return Opt(z3.Bool(fresh_name(name + '_none')), inner)
+        if isinstance(old, Opaque):
+            return Opaque(fresh_name(name), kind=old.kind)
         from .engine import EngineError
         raise EngineError(f'cannot havoc local {name} of type {type(old).__name__}')
 
